@@ -115,9 +115,12 @@ struct TableModel {
 		for (size_t i = 0; i < extents.size(); i++) if (!same_double(extents[i], o.extents[i])) return "extents";
 		if (with_aux) {
 			if (aux.size() != o.aux.size()) return "aux-count";
+			// A key can be present twice (a header may repeat a keyword and the reader keeps both cards). The getters
+			// find an entry by its key, so what can be observed of a repeated key is the value of its first entry:
+			// values are compared as they can be seen
 			for (size_t i = 0; i < aux.size(); i++) {
 				if (aux[i].first != o.aux[i].first) return "aux-key";
-				if (aux[i].second != o.aux[i].second) return "aux-value";
+				if (visible_value(i) != o.visible_value(i)) return "aux-value";
 			}
 		}
 		return "";
@@ -165,6 +168,21 @@ struct TableModel {
 	}
 
 	// ---- aux map semantics
+	const std::string &visible_value(size_t i) const {
+		for (size_t j = 0; j < i; j++) if (aux[j].first == aux[i].first) return aux[j].second;
+		return aux[i].second;
+	}
+	// values of the later entries of repeated keys cannot be captured through the getters: a freshly captured
+	// state takes them over from the state it continues (k-th entry of a key from the k-th entry of that key)
+	void inherit_hidden_values(const TableModel &prev) {
+		for (size_t i = 0; i < aux.size(); i++) {
+			size_t occ = 0;
+			for (size_t j = 0; j < i; j++) if (aux[j].first == aux[i].first) occ++;
+			if (!occ) continue;
+			size_t seen = 0;
+			for (size_t j = 0; j < prev.aux.size(); j++) if (prev.aux[j].first == aux[i].first) { if (seen == occ) { aux[i].second = prev.aux[j].second; break; } seen++; }
+		}
+	}
 	int find_key(const std::string &k) const {
 		for (size_t i = 0; i < aux.size(); i++) if (aux[i].first == k) return (int)i;
 		return -1;
